@@ -186,6 +186,7 @@ class World(object):
         self.last_act = None
         self.results = {}       # action key -> list of outcomes
         self.eager_executor = True
+        self.async_pending = []  # (action_ex_id, Result) to be posted
         self.poll_active = {}   # scheduler instance name -> activity
         self.extra = {}         # scenario private data
 
@@ -581,6 +582,10 @@ class VerifAct(ml_actions.Action):
 
 
 class VerifAsyncAct(VerifAct):
+    """Asynchronous action: the executor reports nothing; the third party
+    that will eventually call back is modelled by a pending external
+    on_action_complete message created when the action is started."""
+
     def is_sync(self):
         return False
 
@@ -588,6 +593,18 @@ class VerifAsyncAct(VerifAct):
         n = W.runs.get(self.key, 0)
         W.runs[self.key] = n + 1
         W.run_log.append((self.key, n))
+        seq = W.results.get(self.key) or ['S']
+        r = seq[min(n, len(seq) - 1)]
+        aid = context.execution.action_execution_id
+        if r == 'N':          # the third party never answers
+            return None
+        if r == 'S':
+            res = ml_actions.Result(data=self.key)
+        elif isinstance(r, (list, tuple)) and r[0] == 'S':
+            res = ml_actions.Result(data=r[1])
+        else:
+            res = ml_actions.Result(error='boom-%s' % self.key)
+        W.async_pending.append((aid, res))
         return None
 
 
@@ -732,11 +749,16 @@ def with_ctx(fn, ctx=None):
 
 # ---------------------------------------------------------------- stepping
 class Choice(object):
-    __slots__ = ('label', 'kind', 'obj', 'seq', 'info')
+    __slots__ = ('label', 'kind', 'obj', 'seq', 'info', 'cost', 'is_rerun',
+                 'tag')
 
-    def __init__(self, label, kind, obj, seq, info=''):
+    def __init__(self, label, kind, obj, seq, info='', cost=1,
+                 is_rerun=False, tag=None):
         self.label, self.kind, self.obj, self.seq, self.info = (
             label, kind, obj, seq, info)
+        self.cost = cost
+        self.is_rerun = is_rerun
+        self.tag = tag
 
     def __repr__(self):
         return '%s[%s]' % (self.label, self.info[:100])
@@ -781,8 +803,15 @@ def next_clock_event():
     return min(ts) if ts else None
 
 
+def deliver_now(m):
+    """Deliver a just-posted external message immediately (one step)."""
+    step(Choice(m.label, 'msg', m, m.seq, m.desc()))
+
+
 def step(choice):
     W.steps += 1
+    if getattr(W, 'clear_caches', False):
+        spec_parser.clear_caches()
     if choice.kind == 'msg':
         W.msgs.remove(choice.obj)
         a = deliver(choice.obj)
@@ -800,7 +829,11 @@ def eager_closure():
     """Run left-movers eagerly: heads of fresh post-commit chains (pure
     sends up to their first transaction) and executor deliveries."""
     progress = True
-    while progress:
+    while progress or W.async_pending:
+        while W.async_pending:
+            aid, res = W.async_pending.pop(0)
+            post('on_action_complete', action_ex_id=aid, result=res,
+                 wf_action=False)
         progress = False
         for a in list(W.acts):
             if a.kind == 'chain' and a.steps == 0 and not a.done:
@@ -999,3 +1032,21 @@ def install_expr_monitor():
                                      json.dumps(before, default=str)[:300],
                                      json.dumps(after, default=str)[:300]))
     expr_mod.evaluate_recursively = rec
+
+
+def install_state_monitor():
+    """C03: log every individual workflow state change request (the
+    compare-and-swap call), including ones overwritten inside a transaction:
+    W.events gets ('wf_state', wf_id, cur_state, new_state, applied, act)."""
+    if getattr(db_api, '_verif_state_monitor', False):
+        return
+    db_api._verif_state_monitor = True
+    orig = db_api.update_workflow_execution_state
+
+    def wrapped(**kw):
+        r = orig(**kw)
+        a = cur_act()
+        W.events.append(('wf_state', kw.get('id'), kw.get('cur_state'),
+                         kw.get('state'), r is not None, a))
+        return r
+    db_api.update_workflow_execution_state = wrapped
